@@ -5,11 +5,13 @@ import (
 	"encoding/json"
 	"fmt"
 	"io"
+	"net"
 	"reflect"
 	"time"
 	"unsafe"
 
 	hccrypto "github.com/brutella/hc/crypto"
+	"github.com/brutella/hc/hap"
 
 	"verif/internal/fw"
 	"verif/internal/refctl"
@@ -287,6 +289,86 @@ func c05Exec(c *fw.Ctx, cas c05Case) {
 	}
 }
 
+// c05Conn feeds an altered stream to a real hap.Connection (scripted net.Conn delivering the whole altered stream
+// in one segment, then blocking): the bytes the caller receives are an unmodified frame-granular prefix ending
+// before the first altered frame; once an altered frame has been consumed the caller gets an error, never more
+// plaintext, and the socket is closed.
+func c05Conn(c *fw.Ctx, cas c05Case) {
+	c.Eval(1)
+	s, err := c05Build(cas)
+	if err != nil {
+		c.Eval(-1)
+		return
+	}
+	alt := s.stream
+	kinds := "conn/"
+	for _, f := range cas.Faults {
+		alt = s.apply(alt, f, false)
+		kinds += f.Kind + "+"
+	}
+	p := 0
+	for p < len(alt) && p < len(s.stream) && alt[p] == s.stream[p] {
+		p++
+	}
+	j := -1
+	if !(p == len(alt) && (p == len(s.stream) || frameBoundary(s, p))) {
+		j = len(s.frames)
+		for i, f := range s.frames {
+			if p < f.end {
+				j = i
+				break
+			}
+		}
+	}
+	sc := &scriptedConn{segs: []c07Seg{{data: alt}}}
+	ctx := hap.NewContextForSecuredDevice(nil)
+	conn := hap.NewConnection(sc, ctx)
+	ctx.GetSessionForConnection(sc).SetCryptographer(s.recv)
+	var got []byte
+	var rerr error
+	if pn := guard(func() {
+		for i := 0; i < 64; i++ {
+			buf := make([]byte, 4096)
+			n, e := conn.Read(buf)
+			got = append(got, buf[:n]...)
+			if e != nil {
+				rerr = e
+				return
+			}
+			if n == 0 {
+				return
+			}
+		}
+	}); pn != nil {
+		c.Report("panic/"+kinds, fmt.Sprintf("Connection.Read panics on an altered stream: %v", pn), cas)
+		return
+	}
+	k, acc := 0, 0
+	for k < len(s.frames) && acc < len(got) {
+		acc += len(s.frames[k].pt)
+		k++
+	}
+	var want []byte
+	for i := 0; i < k; i++ {
+		want = append(want, s.frames[i].pt...)
+	}
+	timeout := false
+	if ne, ok := rerr.(net.Error); ok && ne.Timeout() {
+		timeout = true // the script ran dry: the reader is waiting for more bytes (e.g. a truncated frame)
+	}
+	switch {
+	case !bytes.Equal(got, want):
+		c.Report("released-altered/"+kinds, fmt.Sprintf("the connection handed %d bytes to the caller that are not an unmodified frame-granular prefix", len(got)), cas)
+	case j >= 0 && k > j:
+		c.Report("released-past-alteration/"+kinds, fmt.Sprintf("plaintext of %d frames delivered although frame %d was altered", k, j), cas)
+	case j >= 0 && !timeout && rerr == nil:
+		c.Report("no-error/"+kinds, "altered stream consumed without an error", cas)
+	case j >= 0 && !timeout && !sc.closed:
+		c.Report("not-closed/"+kinds, "an altered frame was detected but the connection was not closed", cas)
+	}
+	c.Class(fmt.Sprintf("%serr=%v", kinds, rerr != nil && !timeout))
+}
+
 func frameBoundary(s *c05Setup, p int) bool {
 	if p == 0 {
 		return true
@@ -403,6 +485,9 @@ func c05Run(c *fw.Ctx) {
 						c.Sample(cas)
 					}
 					c05Exec(c, cas)
+					if dir == "acc" && len(s.stream) < 2200 && (f.Kind != "flip" || f.A%8 == 3 || c.Thorough()) {
+						c05Conn(c, cas) // the same fault one level up, through hap.Connection.Read
+					}
 				}
 				if c.Thorough() && len(s.stream) < 1200 && secret == 0 {
 					// all ordered pairs of faults from a reduced menu (every frame op, flips at one bit of every byte
@@ -453,13 +538,16 @@ func init() {
 	fw.Register(&fw.Check{
 		ID:     "C05",
 		Level:  "fault_enumeration",
-		Rule:   "for 20 stream shapes (0–4 frames, message lengths around 1, 1023..1025, k·1024; frame counters starting at 0, 1, 300 and — preset through reflection — 2^32−1, 2^32, 2^32+5, 2^40, 2^63−1, 2^64−4) × both receiving directions × secrets: every single-bit flip of the whole ciphertext stream, truncation at every byte offset, every frame deletion, duplication at every position, every non-identity permutation, reflection of the receiver's own frames, same-index frames of a session with another secret, a frame the same sender sealed 2^32 counters earlier, byte insertion/removal at frame edges; thorough adds all ordered pairs of faults from a reduced menu on the small shapes. Sender = reference framing, receiver = hc's real session. distinct_nontrivial = distinct (fault kinds, error reported?) classes among faults that changed at least one byte",
+		Rule:   "for 20 stream shapes (0–4 frames, message lengths around 1, 1023..1025, k·1024; frame counters starting at 0, 1, 300 and — preset through reflection — 2^32−1, 2^32, 2^32+5, 2^40, 2^63−1, 2^64−4) × both receiving directions × secrets: every single-bit flip of the whole ciphertext stream, truncation at every byte offset, every frame deletion, duplication at every position, every non-identity permutation, reflection of the receiver's own frames, same-index frames of a session with another secret, a frame the same sender sealed 2^32 counters earlier, byte insertion/removal at frame edges; thorough adds all ordered pairs of faults from a reduced menu on the small shapes. Sender = reference framing, receiver = hc's real session; for streams under 2200 bytes the same faults are also fed one level up through a real hap.Connection (released bytes, error, connection closed). distinct_nontrivial = distinct (fault kinds, error reported?) classes among faults that changed at least one byte",
 		Run:    c05Run,
 		Budget: func(string) time.Duration { return 25 * time.Minute },
 		Replay: func(c *fw.Ctx, raw json.RawMessage) {
 			var cas c05Case
 			json.Unmarshal(raw, &cas)
 			c05Exec(c, cas)
+			if cas.Dir == "acc" {
+				c05Conn(c, cas)
+			}
 		},
 		Assumptions: []string{"ChaCha20-Poly1305 itself (x/crypto) is not re-verified; the check decides framing, nonce, key separation and error propagation", "faults beyond two simultaneous alterations are not enumerated"},
 	})
